@@ -137,7 +137,8 @@ type Enc struct {
 	assumeScope   []int // per assumption: 0 = visible to every later obligation, k = only to the obligations of scope k
 	curScope      int
 	nscope        int
-	lazyReach     []*Term  // reach conditions of calls that evaluate something in a unit declared `constructs-lazily`
+	qProps        map[string][]string // obligations whose clause names its own property ids
+	lazyReach     []*Term             // reach conditions of calls that evaluate something in a unit declared `constructs-lazily`
 	lazyWhat      []string
 	freshMark     map[string]int // unknown (havocked) constant -> number of local allocations made before it was introduced
 }
